@@ -9,6 +9,51 @@ use std::collections::{BTreeMap, BTreeSet};
 use std::sync::atomic::{AtomicBool, AtomicU64, Ordering};
 use std::sync::Mutex;
 
+/// What each worker is executing right now, for the watchdog: (family, run index, scenario, since).
+pub static IN_FLIGHT: Mutex<Vec<Option<(String, u64, Value, std::time::Instant)>>> = Mutex::new(Vec::new());
+
+fn flight_slot() -> usize {
+    let mut g = IN_FLIGHT.lock().unwrap();
+    g.push(None);
+    g.len() - 1
+}
+
+fn flight_set(slot: usize, v: Option<(String, u64, Value, std::time::Instant)>) {
+    if let Ok(mut g) = IN_FLIGHT.lock() {
+        if slot < g.len() {
+            g[slot] = v;
+        }
+    }
+}
+
+/// Watchdog: if one base scenario runs longer than `limit_s` of wall-clock time the code under
+/// test is looping without touching a seam (the step budget would have caught it otherwise).
+/// The scenario is written out as a replay file and the process exits 1. The limit is two
+/// orders of magnitude above the slowest legitimate scenario, so it only fires on a real hang.
+pub fn start_watchdog(property: String, limit_s: u64, root: String, seed: u64) {
+    std::thread::spawn(move || loop {
+        std::thread::sleep(std::time::Duration::from_millis(500));
+        let hung = {
+            let g = IN_FLIGHT.lock().unwrap();
+            g.iter().flatten().find(|(_, _, _, t)| t.elapsed().as_secs() > limit_s).cloned()
+        };
+        if let Some((fam, idx, scn, _)) = hung {
+            let dir = format!("{}/replays", root);
+            let _ = std::fs::create_dir_all(&dir);
+            let path = format!("{}/{}-{}-{}-hang{}.json", dir, property, fam, seed, idx);
+            let file = json!({
+                "property": property, "family": fam, "verif_seed": seed,
+                "violation": {"property": property, "oracle": "watchdog_hang", "detail": format!("base scenario {} did not finish within {} s of wall-clock time", idx, limit_s)},
+                "trace_hash": "", "scenario": scn,
+            });
+            let _ = std::fs::write(&path, serde_json::to_string_pretty(&file).unwrap());
+            println!("VIOLATION property={} replay={}", property, path);
+            println!("  oracle=watchdog_hang detail=family {} base scenario {} did not finish within {} s (a loop that touches no seam)", fam, idx, limit_s);
+            std::process::exit(1);
+        }
+    });
+}
+
 #[derive(Clone, Copy, PartialEq, Eq, Debug)]
 pub enum Tier {
     Quick,
@@ -101,6 +146,8 @@ pub struct Agg {
     pub violations: Vec<(u64, Value, Violation, u64)>, // idx, scenario, violation, trace hash
     pub relevant_evals: u64,
     pub viol_counts: BTreeMap<String, u64>,
+    pub harness_panics: u64,
+    pub harness_panic_example: Option<String>,
 }
 
 impl Agg {
@@ -117,6 +164,10 @@ impl Agg {
         self.hash_sum = self.hash_sum.wrapping_add(o.hash_sum);
         self.samples.extend(o.samples);
         self.violations.extend(o.violations);
+        self.harness_panics += o.harness_panics;
+        if self.harness_panic_example.is_none() {
+            self.harness_panic_example = o.harness_panic_example;
+        }
         for (k, v) in o.viol_counts {
             *self.viol_counts.entry(k).or_insert(0) += v;
         }
@@ -147,6 +198,7 @@ pub fn run_family<F: Family>(f: &F, cfg: &RunCfg) -> Agg {
         for _ in 0..cfg.workers.max(1) {
             sc.spawn(|| {
                 crate::seams::install_panic_hook_once();
+                let slot = flight_slot();
                 let mut agg = Agg::default();
                 loop {
                     if stop.load(Ordering::Relaxed) {
@@ -165,10 +217,11 @@ pub fn run_family<F: Family>(f: &F, cfg: &RunCfg) -> Agg {
                     let seed = derive_seed(cfg.seed, f.name(), idx);
                     let mut rng = Rng::new(seed);
                     let base = f.generate(&mut rng, cfg.tier, idx);
+                    flight_set(slot, Some((f.name().to_string(), idx, serde_json::to_value(&base).unwrap(), std::time::Instant::now())));
                     agg.base_scenarios += 1;
                     let mut sub: u64 = 0;
                     let tb = std::time::Instant::now();
-                    f.execute_all(&base, &mut |sc, out| {
+                    let guarded = std::panic::catch_unwind(std::panic::AssertUnwindSafe(|| f.execute_all(&base, &mut |sc, out| {
                         agg.evaluations += 1;
                         agg.steps += out.steps;
                         if out.props.iter().any(|p| *p == cfg.property) {
@@ -203,7 +256,16 @@ pub fn run_family<F: Family>(f: &F, cfg: &RunCfg) -> Agg {
                             }
                         }
                         sub += 1;
-                    });
+                    })));
+                    if guarded.is_err() {
+                        // a panic outside run_guarded is a defect of the harness (an oracle that cannot
+                        // cope with what the code under test did): never a verdict
+                        agg.harness_panics += 1;
+                        if agg.harness_panic_example.is_none() {
+                            agg.harness_panic_example = Some(format!("family {} run_index {} scenario {}", f.name(), idx, serde_json::to_string(&base).unwrap_or_default()));
+                        }
+                    }
+                    flight_set(slot, None);
                     if std::env::var_os("KSIM_SLOW").is_some() && tb.elapsed().as_secs_f64() > 2.0 {
                         eprintln!("slow: family {} run_index {} took {:.1}s ({} executions)", f.name(), idx, tb.elapsed().as_secs_f64(), sub);
                     }
